@@ -223,6 +223,8 @@ def main():
         for st in prog["stmts"]:
             if st[0] == "require":
                 c.hist("require-soft" if st[1] is not None else "require-hard")
+        nsoft = sum(1 for st in prog["stmts"] if st[0] == "require" and st[1] is not None and 0 < st[1] < 1)
+        c.hist(f"proper_soft_requirements={min(nsoft, 3)}{'+' if nsoft >= 3 else ''}")
         for kd in res.get("dag", {}).get("kinds", []):
             if kd != "const":
                 c.hist("node:" + kd)
